@@ -25,7 +25,7 @@ PROPERTY = "C15"
 FUNCTIONS = ["SectionOutput.add_content/write/clear/overwrite/_pop_stream_content_until_current_section", "Output.section/write", "Terminal.width (stubbed)"]
 PART = {}
 BOUNDS = {"quick": "E2: all 0 <= L <= 4096, 1 <= W <= 512; E1: 3 operations after creating 2-3 sections, each op = (section, kind in {write_line, write 2 lines, overwrite, clear(), clear(1), clear(2)}, text of length in {0, 1, W, W+1, 2W+1}); width 3 with 2 sections (3 ops), width 5 with 3 sections (2 ops), plain output (2 ops)",
-          "thorough": "4 operations, widths {2, 3, 5, 8}"}
+          "thorough": "3 operations on 2 sections (widths 2, 5) and on 3 prefilled sections (widths 3, 8), plain output with 3 operations"}
 OUTSIDE = ["clear(n) with n larger than the number of lines the section holds (skipped)", "tabs (the code counts a tab as 8 columns; the emulator has no tab stops)", "more than 3 sections, sequences longer than stated", "random length-40 sequences", "style tags inside section lines"]
 STUBS = ["Terminal.width -> the chosen width W (class-level property patched from the harness)", "E2: strings abstracted to their length; self.remove_format(x) -> x; no tabs"]
 ASSUMPTIONS = ["terminal model: a line of exactly W characters followed by LF uses one row (pending-wrap), as xterm-like terminals do"]
@@ -262,7 +262,7 @@ def conditions(tier):
               "bounds": "all 0 <= L <= 4096, 1 <= W <= 512 (cvc5 QF_BVFP over the translated add_content)"}]
     # (width, sections, symbolic operations, ANSI, sections prefilled with one line each, first operation pinned per condition)
     configs = [(3, 2, 3, True, False, True), (5, 3, 2, True, True, False), (3, 2, 2, False, False, False)] if quick else \
-              [(2, 2, 4, True, False, True), (3, 3, 3, True, True, True), (5, 2, 4, True, False, True), (8, 3, 3, True, True, True), (3, 2, 3, False, False, True)]
+              [(2, 2, 3, True, False, True), (3, 3, 3, True, True, True), (5, 2, 3, True, False, True), (8, 3, 3, True, True, True), (3, 2, 3, False, False, True)]
     for w, nsec, nops, ansi, prefill, pin_first in configs:
         for s1 in range(nsec):
             firsts = [(k1, l1) for k1 in range(6) for l1 in (range(NLEN) if k1 <= 2 else [0])] if pin_first else [(None, None)]
